@@ -59,7 +59,7 @@ def main():
             {"name": "nsim", "path": "/verif/harness/nsim.cc",
              "serves_properties": ["C01", "C02", "C03", "C04", "C05", "C06", "C07", "C10", "C11", "C17", "C18", "C20"],
              "kind_free_text": "in-process build simulator: real parser/scan/plan/builder/logs, virtual disk, scripted command runner with controlled completion order; offline trace checkers"},
-            {"name": "e2e", "path": "/verif/vlib/e2e.py", "serves_properties": ["C06", "C07", "C13", "C16", "C18", "C19", "C20"],
+            {"name": "e2e", "path": "/verif/vlib/e2e.py", "serves_properties": ["C05", "C06", "C07", "C08", "C13", "C16", "C19", "C20"],
              "kind_free_text": "real sanitised ninja binary with real processes, signals, crash-point hooks, jobserver FIFO, pty"},
             {"name": "nfuzz", "path": "/verif/harness/fuzz_targets.cc", "serves_properties": ["C13"],
              "kind_free_text": "libFuzzer + bounded-exhaustive token enumeration under ASan/UBSan"},
